@@ -22,6 +22,10 @@ Proof. intros [[a b c d e] z]. reflexivity. Qed.
 Lemma tadd_z_r : forall x, tadd x tz = x.
 Proof. intros. rewrite tadd_comm. apply tadd_z_l. Qed.
 
+Lemma T_ext : forall (a b c d e z a' b' c' d' e' z' : Z),
+  a = a' -> b = b' -> c = c' -> d = d' -> e = e' -> z = z' -> (mkC a b c d e, z) = (mkC a' b' c' d' e', z').
+Proof. intros; subst; reflexivity. Qed.
+
 Fixpoint tsum {A} (h : A -> T) (l : list A) : T :=
   match l with [] => tz | x :: r => tadd (h x) (tsum h r) end.
 
@@ -115,3 +119,229 @@ Qed.
 Lemma perm_pod_ids : forall l1 l2, Permutation l1 l2 -> Permutation (pod_ids l1) (pod_ids l2).
 Proof. intros. unfold pod_ids. apply Permutation_map. assumption. Qed.
 
+
+(* ---------- pass 2 ---------- *)
+Lemma create_one_inv : forall P base n a j N,
+  Permutation (a_pods a) (N ++ P) -> created_ok P N -> acc_t a = tadd base (tsum classify N) ->
+  exists N', Permutation (a_pods (create_one [] n a j)) (N' ++ P) /\ created_ok P N' /\
+             acc_t (create_one [] n a j) = tadd base (tsum classify N').
+Proof.
+  intros P base n a j N Hperm Hok Hacc. unfold create_one. cbn [fails_create existsb].
+  unfold api_create. destruct (has_pod n j (a_pods a)) eqn:Eh.
+  - exists N. auto.
+  - exists (mkPod n j PPending false false :: N). cbn [a_pods]. repeat split.
+    + eapply perm_trans; [apply insert_pod_perm|]. cbn. apply perm_skip. exact Hperm.
+    + constructor; auto. cbn. split; [|reflexivity].
+      intros Hin. apply has_pod_false_notin in Eh. apply Eh.
+      apply (Permutation_in _ (Permutation_sym (perm_pod_ids _ _ Hperm))).
+      unfold pod_ids. rewrite map_app. apply in_or_app. right. exact Hin.
+    + unfold acc_t in *. cbn [a_cnt a_term tsum]. injection Hacc as Hc Ht.
+      rewrite Hc, Ht. cbn [classify p_del p_phase]. unfold tadd. cbn [fst snd].
+      destruct base as [[a0 b0 c0' d0 e0] z0]. destruct (tsum classify N) as [[a1 b1 c1' d1 e1] z1].
+      unfold cadd, cone; cbn [fst snd cP cR cS cF cU]. apply T_ext; lia.
+Qed.
+
+Lemma pass2_inv : forall sp view P base ts a N,
+  Permutation (a_pods a) (N ++ P) -> created_ok P N -> acc_t a = tadd base (tsum classify N) ->
+  exists N', let a' := fold_left (fun a k => if deps_met sp view k
+                                             then fold_left (create_one [] (t_name k)) (missing k view) a else a) ts a in
+             Permutation (a_pods a') (N' ++ P) /\ created_ok P N' /\ acc_t a' = tadd base (tsum classify N').
+Proof.
+  intros sp view P base.
+  assert (C : forall n L a N, Permutation (a_pods a) (N ++ P) -> created_ok P N -> acc_t a = tadd base (tsum classify N) ->
+          exists N', Permutation (a_pods (fold_left (create_one [] n) L a)) (N' ++ P) /\ created_ok P N' /\
+                     acc_t (fold_left (create_one [] n) L a) = tadd base (tsum classify N')).
+  { induction L as [|j L IH]; intros a N H1 H2 H3; cbn [fold_left]; [exists N; auto|].
+    destruct (create_one_inv P base n a j N H1 H2 H3) as (N1 & A & B & C0). apply (IH _ N1); auto. }
+  induction ts as [|k ts IH]; intros a N H1 H2 H3; cbn [fold_left]; [exists N; auto|].
+  destruct (deps_met sp view k).
+  - destruct (C (t_name k) (missing k view) a N H1 H2 H3) as (N1 & A & B & C0). apply (IH _ N1); auto.
+  - apply (IH a N); auto.
+Qed.
+
+(* ---------- pass 3 ---------- *)
+Definition mD (D : list pod) (q : pod) : pod :=
+  if existsb (same_id (p_task q) (p_idx q)) D then mark q else q.
+
+Lemma same_id_sym : forall p q, same_id (p_task p) (p_idx p) q = same_id (p_task q) (p_idx q) p.
+Proof. intros. unfold same_id. rewrite Pos.eqb_sym, Z.eqb_sym. reflexivity. Qed.
+
+Lemma pass3_map : forall D a,
+  a_pods (fold_left (delete_one []) D a) = map (mD D) (a_pods a) /\
+  acc_t (fold_left (delete_one []) D a) = tadd (acc_t a) (tsum (fun _ => one_term) D).
+Proof.
+  induction D as [|d D IH]; intros a; cbn [fold_left tsum].
+  - split; [|rewrite tadd_z_r; reflexivity]. unfold mD. cbn. rewrite map_id. reflexivity.
+  - destruct (IH (delete_one [] a d)) as [A B]. rewrite A, B. unfold delete_one. cbn [fails_delete existsb a_pods].
+    split.
+    + unfold api_delete, update_pod. rewrite map_map. apply map_ext. intros q. unfold mD. cbn [existsb].
+      rewrite (same_id_sym q d). destruct (same_id (p_task d) (p_idx d) q); cbn [orb p_task p_idx mark].
+      * destruct (existsb _ D); reflexivity.
+      * reflexivity.
+    + unfold acc_t. cbn [a_cnt a_term]. unfold tadd, one_term. cbn [fst snd].
+      destruct (tsum (fun _ : pod => (c0, 1)) D) as [[a1 b1 c1' d1 e1] z1]. destruct (a_cnt a) as [a0 b0 c0' d0 e0].
+      unfold cadd, c0; cbn [fst snd cP cR cS cF cU]. apply T_ext; lia.
+Qed.
+
+(* ---------- per task ---------- *)
+Definition hk (k : task) (p : pod) : T :=
+  if in_range k p then (if p_del p then one_term else if p_oos p then one_term else (cone (p_phase p), 0))
+  else one_term.
+
+Lemma per_task : forall k P,
+  tadd (tsum c1 (kept k P))
+       (tsum (fun _ => one_term) (filter (fun p => negb (p_del p) && p_oos p) (kept k P) ++ surplus k P)) =
+  tsum (hk k) (task_pods k P).
+Proof.
+  intros k P. unfold kept, surplus. set (L := task_pods k P).
+  rewrite tsum_app, !tsum_filter, <- !tsum_tadd. apply tsum_ext_in. intros p _.
+  unfold hk, c1. destruct (in_range k p); cbn [negb].
+  - destruct (p_del p); cbn [negb andb].
+    + rewrite !tadd_z_r. reflexivity.
+    + destruct (p_oos p); rewrite ?tadd_z_r, ?tadd_z_l; reflexivity.
+  - rewrite !tadd_z_l. reflexivity.
+Qed.
+
+(* ---------- every pod belongs to exactly one task ---------- *)
+Lemma tsum_tz : forall {A} (l : list A), tsum (fun _ => tz) l = tz.
+Proof. induction l; cbn; auto. rewrite IHl. reflexivity. Qed.
+
+Lemma tsum_unique : forall (H : task -> T) ts k0 t,
+  NoDup (map t_name ts) -> In k0 ts -> t_name k0 = t ->
+  tsum (fun k => if Pos.eqb t (t_name k) then H k else tz) ts = H k0.
+Proof.
+  induction ts as [|x ts IH]; intros k0 t Hnd Hin Hn; [destruct Hin|].
+  cbn in Hnd. inversion Hnd as [|? ? Hnot Hnd']; subst. cbn [tsum]. destruct Hin as [->|Hin].
+  - rewrite Pos.eqb_refl.
+    rewrite (tsum_ext_in _ (fun _ => tz)); [rewrite tsum_tz, tadd_z_r; reflexivity|].
+    intros k Hk. destruct (Pos.eqb (t_name k0) (t_name k)) eqn:E; auto.
+    apply Pos.eqb_eq in E. exfalso. apply Hnot. rewrite E. apply in_map. exact Hk.
+  - destruct (Pos.eqb (t_name k0) (t_name x)) eqn:E.
+    + apply Pos.eqb_eq in E. exfalso. apply Hnot. rewrite <- E. apply in_map. exact Hin.
+    + rewrite tadd_z_l. apply IH; auto.
+Qed.
+
+Lemma tsum_partition : forall (H : task -> pod -> T) (g : pod -> T) ts P,
+  NoDup (map t_name ts) ->
+  (forall p, In p P -> exists k, In k ts /\ t_name k = p_task p) ->
+  (forall k p, In k ts -> In p P -> t_name k = p_task p -> H k p = g p) ->
+  tsum (fun k => tsum (H k) (task_pods k P)) ts = tsum g P.
+Proof.
+  intros H g ts P Hnd. induction P as [|p P IH]; intros Hex Hg.
+  - cbn. apply tsum_tz.
+  - cbn [tsum]. rewrite <- IH; [|intros; apply Hex; right; assumption|intros; apply Hg; auto; right; assumption].
+    destruct (Hex p (or_introl eq_refl)) as (k0 & Hk0 & Hn0).
+    rewrite <- (Hg k0 p Hk0 (or_introl eq_refl) Hn0).
+    rewrite <- (tsum_unique (fun k => H k p) ts k0 (p_task p) Hnd Hk0 Hn0).
+    rewrite <- tsum_tadd. apply tsum_ext_in. intros k _. unfold task_pods. cbn [filter].
+    destruct (Pos.eqb (p_task p) (t_name k)); cbn [tsum]; [reflexivity|rewrite tadd_z_l; reflexivity].
+Qed.
+
+Lemma doomed_unique : forall sp p k,
+  NoDup (map t_name (s_tasks sp)) -> In k (s_tasks sp) -> t_name k = p_task p ->
+  doomed sp p = negb (in_range k p) || (negb (p_del p) && p_oos p).
+Proof.
+  intros sp p k. unfold doomed. induction (s_tasks sp) as [|x ts IH]; intros Hnd Hin Hn; [destruct Hin|].
+  cbn in Hnd. inversion Hnd as [|? ? Hnot Hnd']; subst. cbn [existsb]. destruct Hin as [->|Hin].
+  - rewrite Hn, Pos.eqb_refl. cbn [andb].
+    assert (E : existsb (fun k0 => Pos.eqb (p_task p) (t_name k0) && (negb (in_range k0 p) || negb (p_del p) && p_oos p)) ts = false).
+    { destruct (existsb _ ts) eqn:E; auto. exfalso. apply existsb_exists in E. destruct E as (k' & Hk' & Hc).
+      apply andb_true_iff in Hc. destruct Hc as [Hc _]. apply Pos.eqb_eq in Hc. apply Hnot.
+      rewrite Hn, Hc. apply in_map. exact Hk'. }
+    rewrite E, orb_false_r. reflexivity.
+  - destruct (Pos.eqb (p_task p) (t_name x)) eqn:E.
+    + apply Pos.eqb_eq in E. exfalso. apply Hnot. rewrite <- E, <- Hn. apply in_map. exact Hin.
+    + cbn [andb orb]. apply IH; auto.
+Qed.
+
+(* ---------- the theorem ---------- *)
+Theorem sync_counters_partition : forall sp P,
+  NoDup (map t_name (s_tasks sp)) -> NoDup (pod_ids P) ->
+  (forall p, In p P -> exists k, In k (s_tasks sp) /\ t_name k = p_task p) ->
+  let a := sync_pods sp P P [] in
+  a_err a = false /\ (a_cnt a, a_term a) = tally (a_pods a).
+Proof.
+  intros sp P Hts Hnd Hown a.
+  assert (Herr : a_err a = false) by (apply (sync_exact_pods true sp P Hnd)).
+  split; auto. revert Herr. unfold a, sync_pods, sync_pods_gen.
+  set (a1 := fold_left (fun a t => fold_left (count_kept_gen true) (kept t P) a) (s_tasks sp) (mkAcc P c0 0 [] false)).
+  destruct (pass1_pods true P (s_tasks sp) (mkAcc P c0 0 [] false)) as [Hp1 He1]. fold a1 in Hp1, He1. cbn in Hp1, He1.
+  pose proof (pass1_t P (s_tasks sp) (mkAcc P c0 0 [] false)) as Ht1. fold a1 in Ht1.
+  change (acc_t (mkAcc P c0 0 [] false)) with tz in Ht1. rewrite tadd_z_l in Ht1.
+  set (base := tsum (fun k => tsum c1 (kept k P)) (s_tasks sp)) in *.
+  destruct (pass2_inv sp P P base (s_tasks sp) a1 []) as (N & Hperm & Hok & Hacc2).
+  { rewrite Hp1. cbn. apply Permutation_refl. }
+  { constructor. }
+  { rewrite Ht1. cbn. rewrite tadd_z_r. reflexivity. }
+  cbv zeta in Hperm, Hacc2.
+  set (a2 := fold_left (fun a k => if deps_met sp P k then fold_left (create_one [] (t_name k)) (missing k P) a else a)
+                       (s_tasks sp) a1) in *.
+  assert (Ee : a_err a2 = false) by (unfold a2; rewrite pass2_err_nofault; exact He1).
+  rewrite Ee. intros _.
+  destruct (pass3_map (to_delete sp P) a2) as [Hp3 Ht3].
+  change (a_cnt ?x, a_term ?x) with (acc_t x). rewrite Ht3, Hp3, Hacc2.
+  rewrite tally_tsum, tsum_map, (tsum_perm _ _ _ Hperm), tsum_app.
+  (* the new pods are not touched by the deletions *)
+  assert (HN : tsum (fun x => classify (mD (to_delete sp P) x)) N = tsum classify N).
+  { apply tsum_ext_in. intros p Hp. unfold mD.
+    destruct (existsb (same_id (p_task p) (p_idx p)) (to_delete sp P)) eqn:E; auto. exfalso.
+    apply existsb_exists in E. destruct E as (d & Hd & Hs). apply in_to_delete in Hd. destruct Hd as [Hd _].
+    apply same_id_true in Hs. destruct Hs as [A B].
+    unfold created_ok in Hok. rewrite Forall_forall in Hok. destruct (Hok p Hp) as [Hnot _]. apply Hnot.
+    unfold pod_ids. apply in_map_iff. exists d. split; auto. congruence. }
+  rewrite HN.
+  (* the pods that existed *)
+  assert (HP : tadd base (tsum (fun _ => one_term) (to_delete sp P)) =
+               tsum (fun x => classify (mD (to_delete sp P) x)) P).
+  { unfold base, to_delete. rewrite tsum_flat_map, <- tsum_tadd.
+    rewrite (tsum_ext_in _ (fun k => tsum (hk k) (task_pods k P))) by (intros k _; apply per_task).
+    apply tsum_partition; auto. intros k p Hk Hp Hn.
+    unfold mD. fold (to_delete sp P). rewrite (targeted_doomed sp P _ _ Hnd), (find_unique P p Hnd Hp).
+    rewrite (doomed_unique sp p k Hts Hk Hn). unfold hk, classify.
+    destruct (in_range k p); cbn [negb orb].
+    - destruct (p_del p) eqn:Ed; cbn [negb andb]; [rewrite Ed; reflexivity|].
+      destruct (p_oos p); cbn [mark p_del]; [reflexivity|rewrite Ed; reflexivity].
+    - reflexivity. }
+  rewrite <- HP. rewrite (tadd_comm base (tsum classify N)), <- tadd_assoc. reflexivity.
+Qed.
+
+(* ---------- on the world: a successful syncJob with an admitted PodGroup and a fresh pod view ---------- *)
+From V Require Import C05.Laws C05.Lemmas.
+
+Theorem counters_partition_sync : forall w u w' wr,
+  sync_job w u [] = (w', false, wr) ->
+  pg_admitted (v_pg w) = true -> st_phase (v_st w) <> PhNone ->
+  v_pods w = w_pods w -> v_st w = w_st w ->
+  NoDup (map t_name (s_tasks (v_spec w))) -> NoDup (pod_ids (w_pods w)) ->
+  (forall p, In p (w_pods w) -> exists k, In k (s_tasks (v_spec w)) /\ t_name k = p_task p) ->
+  (st_cnt (w_st w'), st_term (w_st w')) = tally (w_pods w').
+Proof.
+  intros w u w' wr H Hpg Hph Hfresh Hst Hts Hnd Hown.
+  destruct (sync_counters_partition (v_spec w) (w_pods w) Hts Hnd Hown) as [Herr Hpart]. cbv zeta in Herr, Hpart.
+  unfold sync_job in H.
+  destruct (phase_beq (st_phase (v_st w)) PhNone) eqn:Ei.
+  { apply phase_beq_true in Ei. contradiction. }
+  cbn [andb] in H. rewrite pj7, Hpg in H. cbn [negb] in H. rewrite pj6, pj5, Hfresh in H.
+  set (a := sync_pods (v_spec w) (w_pods w) (w_pods w) []) in *. rewrite Herr in H.
+  match type of H with context [status_eq_dec ?x ?y] => destruct (status_eq_dec x y) as [Heq|Hne] end.
+  - inversion H; subst. fin. rewrite <- Hst, Heq, apply_upd_cnt, apply_upd_term. cbn. exact Hpart.
+  - cbn [fails_status existsb] in H. inversion H; subst. fin. rewrite apply_upd_cnt, apply_upd_term. cbn. exact Hpart.
+Qed.
+
+Example counters_partition_sync_nonvacuous :
+  let sp := mkSpec [mkTask 1 2 (Some 1) [] None; mkTask 2 1 None [] None] 2 None 3 [] in
+  let pods := [mkPod 1 0 PSucceeded false false; mkPod 1 1 PRunning false true; mkPod 1 2 PRunning false false;
+               mkPod 2 0 PFailed true false] in
+  let w := init_world sp (mkStatus PhRunning 0 0 2 c0 0 [] false false) pods (Some PgRunning) in
+  NoDup (map t_name (s_tasks sp)) /\ NoDup (pod_ids pods) /\
+  (forall p, In p pods -> exists k, In k (s_tasks sp) /\ t_name k = p_task p) /\
+  exists w', sync_job w URunningSync [] = (w', false, true) /\
+             st_cnt (w_st w') = mkC 0 0 1 0 0 /\ st_term (w_st w') = 3 /\ length (w_pods w') = 4%nat.
+Proof.
+  cbv zeta. split; [repeat constructor; cbn; intuition congruence|].
+  split; [repeat constructor; cbn; intuition congruence|].
+  split.
+  - intros p Hp. cbn in Hp.
+    repeat (destruct Hp as [<-|Hp]; [cbn; eauto 6|]). destruct Hp.
+  - eexists. split; [vm_compute; reflexivity|]. repeat split.
+Qed.
